@@ -275,7 +275,7 @@ def run_partition(ctx):
             continue
         _seen_esc.add(lx.name)
         ps_ = parts_of(lx)
-        ekey = '%s:%s' % (g.crate, lx.name)
+        ekey = '%s:escaped-identifier:%s' % (g.crate, lx.name)
         if len(ps_) != 2 or lit_of(ps_[0]) != '\\':
             r.undecided(ekey + ':shape', W(lx), '%s is not backslash + one character class' % lx.name)
             continue
@@ -305,8 +305,16 @@ def run_partition(ctx):
                    '%s ends an escaped identifier at %s, which is not white space: the rest of the identifier is handed to the other alternatives of the partition '
                    '(a backtick in it becomes a macro usage, a quote opens a string) or, right after the backslash, nothing can parse' %
                    (lx.name, ', '.join(repr(c_) for c_ in extra[:5]) + (' ...' if len(extra) > 5 else '')))
-        if not (stops & {' ', '\n'}) :
-            r.fail('%s:runs-past-white-space' % ekey, W(lx), '%s does not stop at blank / newline' % lx.name)
+        # 5.6.1: an escaped identifier ends at white space — at every character the trivia function of this grammar takes as a blank;
+        # a blank the identifier runs past becomes part of its text, so the same identifier has another name at the end of a CR LF line
+        from rules.g_struct import trivia_alphabet
+        blanks = trivia_alphabet(g)
+        need = (blanks or set()) | {' ', '\n'}
+        past = sorted(need - stops)
+        if past:
+            r.fail('%s:runs-past-white-space:%s' % (ekey, '+'.join('%02x' % ord(c_) for c_ in past)), W(lx),
+                   '%s does not end an escaped identifier at %s, which the trivia function takes as white space: that character becomes part of the identifier, so the leaf is longer than '
+                   'the name and the same identifier differs between the end of a line (CR LF) and the middle of one' % (lx.name, ', '.join(repr(c_) for c_ in past)))
     multi = {x[0] for x in firsts if len(x) >= 2}
     single = {x[0] for x in firsts if len(x) == 1}
     for c_ in sorted((multi - single) & cls):
